@@ -88,6 +88,14 @@ def _model_reject(prop, out):
                             name='reject', must_complete=False)
 
 
+def _model_reject_guard(out):
+    """The corrected design with a context.__init__ that refuses to start on the left-over of a failed load
+    (InitGuard = TRUE): TLC must reject `FailedLoad ; Load`."""
+    text = _cfg('RemotePickle_fixed.cfg').replace('InitGuard = FALSE', 'InitGuard = TRUE')
+    out['reject_guard'] = tlc.run('RemotePickleMC', cfg_text=text, env={'RP_SET': 'wit'}, workers=2, timeout=600,
+                                  name='rejectguard', must_complete=False)
+
+
 def _model_wit(out):
     out['wit'] = tlc.run('RemotePickleMC', 'RemotePickle_wit.cfg', env={'RP_SET': 'wit'}, workers=2, timeout=600,
                          name='wit', must_complete=False)
@@ -252,7 +260,8 @@ def run(prop, tier, replay=None):
         ths = [threading.Thread(target=_model_asis, args=(rpset, 9, out, big)),
                threading.Thread(target=_model_fixed, args=(rpset, 5, out, big)),
                threading.Thread(target=_model_reject, args=(prop, out)),
-               threading.Thread(target=_model_wit, args=(out,))]
+               threading.Thread(target=_model_wit, args=(out,)),
+               threading.Thread(target=_model_reject_guard, args=(out,))]
         if tier == 'thorough':
             ths.append(threading.Thread(target=_model_live, args=(out,)))
         errs = []
@@ -335,13 +344,17 @@ def run(prop, tier, replay=None):
     ev.add_tlc('vacuity: strict %s invariants on the model of the code as written (must be rejected)' % prop, rrj, role='vacuity')
     if not (rrj.error or '').startswith('invariant:Inv_' + prop):
         raise MachineryError('TLC does not reject the strict %s invariants on the model of the code as written: %s' % (prop, rrj.error))
+    rg = out['reject_guard']
+    ev.add_tlc('vacuity: corrected design + guard on the left-over of a failed load in context.__init__ (must be rejected)', rg, role='vacuity')
+    if not (rg.error or '').startswith('invariant:Inv_C1'):
+        raise MachineryError('TLC does not reject a context.__init__ that refuses to start after a failed load: %s' % rg.error)
     ev.add_tlc('witnesses (every antecedent / fault reached)', rw, role='vacuity')
     reached = sorted({x[0] for x in rw.tags.get('WIT', [])})
     need = ['Concurrency', 'Copyreg', 'DumpWarning', 'Failure', 'MemoGet', 'OptInFalse', 'PatchDelivered', 'Residue', 'Siblings',
-            'StdOp', 'StdPath', 'Warning', 'AfterFail', 'Falsy', 'LateCopyreg', 'LowProto']
+            'StdOp', 'StdPath', 'Warning', 'AfterFail', 'Falsy', 'LateCopyreg', 'LowProto', 'FailedThenLoad']
     if rw.error or [w for w in need if w not in reached]:
         raise MachineryError('witnesses not reached: %s (%s)' % ([w for w in need if w not in reached], rw.error))
-    ev.cov['witnesses'] = {'reached': reached, 'asis_model_rejected_by': rrj.error}
+    ev.cov['witnesses'] = {'reached': reached, 'asis_model_rejected_by': rrj.error, 'init_guard_rejected_by': rg.error}
     if 'live' in out:
         ev.add_tlc('liveness: every scenario terminates', out['live'], role='vacuity')
         if out['live'].error or not out['live'].completed:
